@@ -204,11 +204,10 @@ func Check_Step() {
 				sx.Assert(false, "expired-ready-flow-not-exported")
 			case !failed && m < 0 && !f.ready:
 				// waiting for correlation: retried a bounded number of times, then dropped
-				if f.retries+1 > intermediate.MaxRetries {
-					sx.Assert(!ok, "uncorrelated-flow-kept-beyond-max-retries")
-				} else {
-					sx.Assert(ok && it.Retries == f.retries+1, "retry-count")
-					sx.Assert(it.Active.Sub(T0) >= agg.ActiveTimeout && it.Inactive.Sub(T0) >= agg.InactiveTimeout, "not-ready-flow-not-re-armed")
+				// (how many retries is C07's subject; here: either dropped, or still held and re-armed into the future)
+				if ok {
+					sx.Assert(it.Active.Sub(T0) > 0 && it.Inactive.Sub(T0) > 0, "not-ready-flow-not-re-armed")
+					sx.Assert(f.retries+1 <= intermediate.MaxRetries, "uncorrelated-flow-kept-beyond-max-retries")
 				}
 				sx.Reach("not-ready")
 			case m > 0:
